@@ -38,7 +38,7 @@ Inductive rule : Set :=
 (* C11 *)
 | R11_accept_while_listening | R11_accept_without_token | R11_accept_from_stranger
 | R11_retry_too_early | R11_too_many_retries | R11_removed_too_early | R11_heard_but_supervising
-| R11_supervision_never_ends
+| R11_supervision_never_ends | R11_offer_changes_ring_view
 (* C12 *)
 | R12_gap_poll_outside_gap | R12_two_gap_polls_per_visit | R12_reply_without_request | R12_reply_untruthful
 | R12_reply_from_wrong_state
@@ -60,7 +60,7 @@ Definition rule_prop (r : rule) : pid :=
   | R06_no_claim_after_timeout => PC06
   | R11_accept_while_listening | R11_accept_without_token | R11_accept_from_stranger
   | R11_retry_too_early | R11_too_many_retries | R11_removed_too_early | R11_heard_but_supervising
-  | R11_supervision_never_ends => PC11
+  | R11_supervision_never_ends | R11_offer_changes_ring_view => PC11
   | R12_gap_poll_outside_gap | R12_two_gap_polls_per_visit | R12_reply_without_request | R12_reply_untruthful
   | R12_reply_from_wrong_state
   | R12_found_not_successor | R12_found_not_next_token | R12_successor_changed_without_ready_reply | R12_sweep_bound
@@ -250,6 +250,22 @@ Definition mon_poll (p : params) (napps : nat) (m : mon) (s : pstep) : mon * lis
        | _ => [R11_accept_without_token]
        end
      else []) in
+  (* a token offer addressed to this station that is NOT accepted in this poll (the station stays idle: the
+     first offer of a stranger) is only remembered as pending: the ring view - LAS, NS, PS - stays as it was
+     (C11_accept_iff, second conjunct; witness_token_pass runs only when a token is accepted or passes by) *)
+  let e11c :=
+    if state_kind_eqb k1 KActiveIdle && kind_in k0 [KActiveIdle; KCheckTokenPass] &&
+       match s_tx s with None => true | Some _ => false end
+    then match lastt, tels with
+         | Some (TToken da sa), [_] =>
+             if (da =? ts) && negb (sa =? ts)
+             then check ((v_ns post =? v_ns pre) && (v_ps post =? v_ps pre) &&
+                         Bool.eqb (v_las_valid post) (v_las_valid pre) && bytes_eqb (v_active post) (v_active pre))
+                        R11_offer_changes_ring_view
+             else []
+         | _, _ => []
+         end
+    else [] in
   let cand :=
     if state_kind_eqb k1 KActiveIdle then
       if kind_in k0 [KActiveIdle; KCheckTokenPass] then
@@ -372,7 +388,7 @@ Definition mon_poll (p : params) (napps : nat) (m : mon) (s : pstep) : mon * lis
     if new_visit
     then mkMon post left lba' quiet cand pass gap_polls req out (m_turn m2) (m_tt m) now 0 start
     else mkMon post left lba' quiet cand pass gap_polls req out (m_turn m2) (m_prev_tt m) (m_tt m) rounds start in
-  (m3, e01 ++ e06 ++ e11a ++ e11b ++ e12a ++ e12b ++ ecalls ++ e15).
+  (m3, e01 ++ e06 ++ e11a ++ e11c ++ e11b ++ e12a ++ e12b ++ ecalls ++ e15).
 
 (* ------------------------------------------------------------------------------------------ *)
 (* Second group of monitors (state `mon2`): C12 found-becomes-successor and sweep bound, C13 with the
